@@ -215,7 +215,9 @@ def monitor_call(ev, cold=False):
     if c in ("faccessat", "faccessat2"):
         if fd < 0 or not _single(path):
             return "faccessat with a multi-component / absolute path"
-        if c == "faccessat2" and not ev["atflags"] & AT_SYMLINK_NOFOLLOW:
+        if c == "faccessat":
+            return "faccessat(2) has no flags argument: it cannot forbid following a symlink"
+        if not ev["atflags"] & AT_SYMLINK_NOFOLLOW:
             return "faccessat2 follows symlinks"
         return None
     if c in ("mkdirat", "mknodat", "unlinkat"):
